@@ -142,3 +142,90 @@ func dependsOnCallInto(w *World, v ssa.Value, set map[*ssa.Function]bool, seen m
 	}
 	return false
 }
+
+// ---------------------------------------------------------------------------
+// Structural identification of the parser's primitives (never by name)
+// ---------------------------------------------------------------------------
+
+// isTokenConsumer: a parser method with pointer receiver that returns a lexer token and
+// advances an int field of its receiver (eat).
+func isTokenConsumer(fn *ssa.Function) bool {
+	if fn == nil || fn.Blocks == nil || fn.Signature.Recv() == nil {
+		return false
+	}
+	if _, ok := fn.Signature.Recv().Type().Underlying().(*types.Pointer); !ok {
+		return false
+	}
+	res := fn.Signature.Results()
+	if res.Len() != 1 || namedName(res.At(0).Type()) != "Token" {
+		return false
+	}
+	for _, b := range fn.Blocks {
+		for _, ins := range b.Instrs {
+			if st, ok := ins.(*ssa.Store); ok {
+				if fa, ok := st.Addr.(*ssa.FieldAddr); ok && fa.X == ssa.Value(fn.Params[0]) && isInt(st.Val.Type()) {
+					return true
+				}
+			}
+		}
+	}
+	return false
+}
+
+// isTokenPeek: a parser method that returns a lexer token without storing to its receiver.
+func isTokenPeek(fn *ssa.Function) bool {
+	if fn == nil || fn.Blocks == nil || fn.Signature.Recv() == nil {
+		return false
+	}
+	res := fn.Signature.Results()
+	if res.Len() != 1 || namedName(res.At(0).Type()) != "Token" {
+		return false
+	}
+	return !isTokenConsumer(fn) && !callsConsumer(fn, 0)
+}
+
+func callsConsumer(fn *ssa.Function, depth int) bool {
+	if depth > 3 {
+		return false
+	}
+	for _, b := range fn.Blocks {
+		for _, ins := range b.Instrs {
+			if c, ok := ins.(*ssa.Call); ok {
+				if callee := c.Call.StaticCallee(); callee != nil && callee != fn && callee.Blocks != nil && callee.Pkg == fn.Pkg {
+					if isTokenConsumer(callee) || callsConsumer(callee, depth+1) {
+						return true
+					}
+				}
+			}
+		}
+	}
+	return false
+}
+
+// isDefinitionCtor: a plain function of the product that builds a definition struct from its
+// parameters (NewVariable): no receiver, one result that is a named struct of its package.
+func isDefinitionCtor(fn *ssa.Function, typeName string) bool {
+	if fn == nil || fn.Signature.Recv() != nil {
+		return false
+	}
+	res := fn.Signature.Results()
+	if res.Len() != 1 || namedName(res.At(0).Type()) != typeName {
+		return false
+	}
+	_, isStruct := res.At(0).Type().Underlying().(*types.Struct)
+	return isStruct && len(fn.Params) >= 1
+}
+
+// returnsStatementList: the function returns a list of statements (a block parser).
+func returnsStatementList(fn *ssa.Function) bool {
+	if fn == nil {
+		return false
+	}
+	res := fn.Signature.Results()
+	for i := 0; i < res.Len(); i++ {
+		if sl, ok := res.At(i).Type().Underlying().(*types.Slice); ok && namedName(sl.Elem()) == "Statement" {
+			return true
+		}
+	}
+	return false
+}
